@@ -201,3 +201,56 @@ Definition wf_any2 (t : ty2) (fs : list field) : bool :=
   | THistSummariesKey, [FN n] => n <? two64
   | _, _ => true
   end.
+
+(* ------------------------------------------------------------------ beacon Forked* wrappers (types/beacon/types.go)
+   ForkedLightClientBootstrap / Update / FinalityUpdate / OptimisticUpdate and ForkedHistoricalSummariesWithProof:
+   Deserialize reads the 4-byte fork digest, a switch on the digest selects the zrnt payload type (or fails with
+   "unknown fork digest"), the payload is decoded from the rest of the scope by the library.  The payload codec is
+   opaque here: pdec k / penc k are the library's Deserialize / Serialize for the k-th payload type of the wrapper. *)
+Definition D_Bellatrix : bytes := [x00; x00; x00; x00].
+Definition D_Capella : bytes := [xbb; xa4; xda; x96].
+Definition D_Deneb : bytes := [x6a; x95; xa1; xa9].
+Definition D_Electra : bytes := [xad; x53; x2c; xeb].
+
+Inductive wrapper : Type := WBootstrap | WUpdate | WFinality | WOptimistic | WHistSummaries.
+
+(* index of the payload type the switch selects: 0 altair, 1 capella, 2 deneb, 3 electra *)
+Definition fork_select (w : wrapper) (d : bytes) : option N :=
+  match w with
+  | WHistSummaries => Some 0                           (* no switch at all: every digest is accepted *)
+  | WOptimistic =>
+      if bytes_eqb d D_Bellatrix then Some 0 else if bytes_eqb d D_Capella then Some 1
+      else if bytes_eqb d D_Deneb then Some 2 else if bytes_eqb d D_Electra then Some 2   (* `case Deneb, Electra:` *)
+      else None
+  | _ =>
+      if bytes_eqb d D_Bellatrix then Some 0 else if bytes_eqb d D_Capella then Some 1
+      else if bytes_eqb d D_Deneb then Some 2 else if bytes_eqb d D_Electra then Some 3
+      else None
+  end.
+
+Section Forked.
+  Variable P : Type.
+  Variable pdec : N -> bytes -> res P.
+  Variable penc : N -> P -> bytes.
+
+  (* strict = the check `scope == 4 + payload.ByteLength(spec)` after the payload decode (repair): the fixed-size zrnt
+     containers (the altair light-client types) do not notice bytes after them.  ForkedHistoricalSummariesWithProof has
+     no such check (its payload ends in a dynamic field). *)
+  Definition dec_Forked (strict : bool) (w : wrapper) (data : bytes) : res (bytes * N * P) :=
+    bind (rd_read (rd_new data) 4) (fun '(d, r1) =>
+    match fork_select w d with
+    | None => Err E_SELECTOR
+    | Some k => bind (pdec k (rd_inp r1)) (fun p =>
+        let checked := match w with WHistSummaries => false | _ => strict end in
+        if checked && negb (nlen data =? 4 + nlen (penc k p)) then Err E_STRICT else Ok (d, k, p))
+    end).
+  (* Serialize: w.Write(ForkDigest[:]) then the payload (no consistency check between digest and payload type) *)
+  Definition enc_Forked (v : bytes * N * P) : res bytes := let '(d, k, p) := v in Ok (d ++ penc k p).
+End Forked.
+
+(* instance used by the driver: the payload value is its canonical byte string, the decoder is an oracle list
+   (per candidate type: Some canonical bytes = the library accepts the rest, None = it rejects) *)
+Definition code_strict_forked_scope : bool := true.   (* false (as found): bytes after a fixed-size light-client payload are ignored *)
+
+Definition dec_Forked_oracle (strict : bool) (w : wrapper) (oracle : list (option bytes)) (data : bytes) : res (bytes * N * bytes) :=
+  dec_Forked bytes (fun k _ => match nth_error oracle (N.to_nat k) with Some (Some b) => Ok b | _ => Err E_SHAPE end) (fun _ p => p) strict w data.
